@@ -22,7 +22,7 @@ def run(rep, kf, tier, seed):
     engine_b.discharge(rep, kf, [cproj.build_contract("NONE")], "C07", tier, seed)
     engine_b.discharge(rep, kf, creg.all_contracts() + cfp.all_contracts() + [cap.add_parameters_contract(), crc.response_contract()],
                        "C07", tier, seed)
-    run_bounded(rep, kf, "C07", ["body_media", "enum_values", "model_properties", "param_conflicts", "name_collision", "body_refs", "schema_accounting", "response_refs", "shared_bad_component"], tier)
+    run_bounded(rep, kf, "C07", ["body_media", "enum_values", "model_properties", "param_conflicts", "name_collision", "body_refs", "schema_accounting", "response_refs", "shared_bad_component", "tag_filing"], tier)
     rep.trusted.append("pyvc Engine B")
     rep.assumptions.extend([
         "EndpointCollection.from_data: inductive contract for any number of path items / operations / tags under the default "
